@@ -47,7 +47,6 @@ def eval_case(case):
   from brax.io import mjcf
   model, acts, st = case['model'], case['acts'], case['st']
   xml = render.render(model, actuators=actuators_of(acts))
-  sys = mjcf.loads(xml)
   mj = mujoco.MjModel.from_xml_string(xml)
   # full q / qd vectors: joint slots from the state, free roots at their initial pose with some velocity
   q = np.array(mj.qpos0)
@@ -66,14 +65,18 @@ def eval_case(case):
     if l['root'] == 'free':
       jid = mujoco.mj_name2id(mj, mujoco.mjtObj.mjOBJ_JOINT, f'J{i}_f')
       qd[mj.jnt_dofadr[jid]:mj.jnt_dofadr[jid] + 6] = [0.3, -0.2, 0.1, 0.7, -0.4, 0.2]
-  fn = jax.jit(actuator.to_tau)
   ctrl = np.array([render.fl(c) for c in st['ctrl']])
-  tau = np.asarray(fn(sys, jp.asarray(ctrl), jp.asarray(q), jp.asarray(qd)))
-  bumped = []
-  for k in range(len(acts)):
-    c2 = ctrl.copy()
-    c2[k] += 0.5
-    bumped.append(np.asarray(fn(sys, jp.asarray(c2), jp.asarray(q), jp.asarray(qd))).tolist())
+  try:
+    sys = mjcf.loads(xml)
+    fn = jax.jit(actuator.to_tau)
+    tau = np.asarray(fn(sys, jp.asarray(ctrl), jp.asarray(q), jp.asarray(qd)))
+    bumped = []
+    for k in range(len(acts)):
+      c2 = ctrl.copy()
+      c2[k] += 0.5
+      bumped.append(np.asarray(fn(sys, jp.asarray(c2), jp.asarray(q), jp.asarray(qd))).tolist())
+  except Exception as e:  # the code under test failed: a verdict, not a machinery error
+    return {'xml': xml, 'q': q.tolist(), 'qd': qd.tolist(), 'ctrl': ctrl.tolist(), 'brax_error': f'{type(e).__name__}: {str(e)[:300]}'}
   d = mujoco.MjData(mj)
   d.qpos[:] = q
   d.qvel[:] = qd
@@ -102,7 +105,7 @@ def run(ctx):
                      'MuJoCo qfrc_actuator validates the specification (disagreement = machinery error)']
   os.makedirs(tlc.WORK, exist_ok=True)
   cfg = os.path.join(tlc.WORK, 'c11.cfg')
-  tlc.write_cfg(cfg, constants={'Class': '"any"', 'MaxLinks': 3, 'NCases': 400 if q else 4000}, invariants=INVS)
+  tlc.write_cfg(cfg, constants={'Class': '"any"', 'MaxLinks': 3, 'NCases': 400 if q else 4000, 'SeedBase': core.seed_base(ctx, 11)}, invariants=INVS)
   dump = os.path.join(tlc.WORK, 'c11')
   res = tlc.run('Actuator', cfg, name='c11', dump=dump, seed=ctx.seed + 15, expect_ok=True, coverage=True)
   tlc.require_coverage(res, ['Compute'], 'c11')
@@ -110,6 +113,9 @@ def run(ctx):
   cases = [{'model': s['model'], 'acts': s['acts'], 'st': s['st'], 'out': s['out']} for s in done_states(dump + '.dump')]
   multi = 0
   for case, r in par.run('harness.drivers.c11', 'eval_case', cases):
+    if 'brax_error' in r:
+      ctx.violation(f'loads / to_tau raised: {r["brax_error"]}', {k: r[k] for k in ('xml', 'q', 'qd', 'ctrl')}, {'call': 'actuator.to_tau', 'predicate': 'raised'})
+      continue
     nv = len(r['tau'])
     want = fn_to_list(case['out']['tau'], nv)
     na = len(case['acts'])
